@@ -215,7 +215,8 @@ class Observer(object):
 
 class AI(object):
     def __init__(self, graph, observer=None, partition=None, max_parts=48, max_depth=12, uninit_locals=True,
-                 inline=None, ptr_partition=True):
+                 inline=None, ptr_partition=True, unroll=None, unroll_cap=48, assume_returns=None,
+                 assume_member=None, method_model=None, loop_once=None):
         self.G = graph
         self.obs = observer or Observer()
         self.partition = partition or (lambda loc, v: None)
@@ -231,6 +232,12 @@ class AI(object):
         self.extern_model = {}
         self.inline = inline or (lambda fkey: True)
         self.ptr_partition = ptr_partition
+        self.unroll = unroll or (lambda f: False)
+        self.unroll_cap = unroll_cap
+        self.assume_returns = assume_returns or {}
+        self.assume_member = assume_member or (lambda e: None)
+        self.method_model = method_model or {}
+        self.loop_once = loop_once or (lambda loop_ast: False)
 
     # ------------------------------------------------------------------ helpers
     def cfg(self, f):
@@ -271,12 +278,14 @@ class AI(object):
     def pkey(self, st):
         key = []
         for loc, v in st.mem.items():
-            if self.ptr_partition and isinstance(v, Ptr) and v.null in ('N', 'NN') and len(loc) == 1:
+            if loc[0] == 'iter':
+                key.append((loc, v.const() if isinstance(v, Int) else None))
+                continue
+            t = self.partition(loc, v)
+            if t is not None:
+                key.append((loc, t))
+            elif self.ptr_partition and isinstance(v, Ptr) and v.null in ('N', 'NN') and len(loc) == 1:
                 key.append((loc, v.null))
-            else:
-                t = self.partition(loc, v)
-                if t is not None:
-                    key.append((loc, t))
         key.sort(key=repr)
         return tuple(key)
 
@@ -332,10 +341,15 @@ class AI(object):
                     for (m, s2) in self.transfer(u, f, g, n, st0.copy(), rets):
                         outs.append((m, s2))
                 for (m, s2) in outs:
+                    if m.kind == 'loop' and self.loop_once(m.ast) and order.get(nid, 0) >= order.get(m.id, 0):
+                        continue        # back edge of a loop analysed once from a havocked state
                     tgt = ins.setdefault(m.id, {})
                     if m.kind == 'loop':
                         visits[m.id] = visits.get(m.id, 0) + 1
-                        if visits[m.id] > 6:
+                        itv = s2.mem.get(('iter', id(m.ast)))
+                        unrolling = self.unroll(f) and isinstance(itv, Int) and itv.const() is not None and \
+                            itv.const() < self.unroll_cap - 1
+                        if visits[m.id] > 6 and not unrolling:
                             s2 = self.widen(tgt, s2, thr)
                     if self.pjoin(tgt, s2):
                         if m.id not in inheap and m.id in order:
@@ -389,6 +403,29 @@ class AI(object):
     # ------------------------------------------------------------------ transfer
     def transfer(self, u, f, g, n, st, rets):
         k = n.kind
+        if k == 'loop' and self.loop_once(n.ast):
+            # sound for safety obligations inside the body: every variable the loop writes is unknown
+            from .expr import written_lvalues
+            for x in walk(n.ast):
+                if x.get('kind') in ('BinaryOperator', 'CompoundAssignOperator', 'UnaryOperator', 'CallExpr',
+                                     'CXXMemberCallExpr', 'CXXOperatorCallExpr', 'CXXConstructExpr'):
+                    for lv in written_lvalues(x):
+                        for (l, s_) in self.lval(lv, st.copy(), u):
+                            if l is not None and l[0] != 'tmp':
+                                root = (l[0],)
+                                d_ = u.by_id.get(l[0]) if isinstance(l[0], str) else None
+                                if d_ is not None and d_.get('kind') == 'VarDecl' and re.search(r'\[\d+\]', dtype(d_) or ''):
+                                    continue      # array objects keep their identity; contents are not tracked
+                                for kk in [kk for kk in st.mem if kk[:len(l)] == l]:
+                                    t_ = dtype(u.by_id[l[0]]) if isinstance(l[0], str) and l[0] in u.by_id and len(kk) == 1 else None
+                                    st.mem[kk] = self.top_of(t_) if t_ else TOP
+            return [(m, st) for (m, _) in n.succs]
+        if k == 'loop' and self.unroll(f):
+            loc = ('iter', id(n.ast))
+            cur = st.mem.get(loc)
+            c = cur.const() if isinstance(cur, Int) else None
+            st.mem[loc] = I(min((c if c is not None else -1) + 1, self.unroll_cap))
+            return [(m, st) for (m, _) in n.succs]
         if k in ('entry', 'join', 'loop', 'exit'):
             return [(m, st) for (m, _) in n.succs]
         if k == 'stmt':
@@ -662,6 +699,8 @@ class AI(object):
         if k == 'UnaryOperator' and x.get('opcode') == '*':
             out = []
             for (pv, s) in self.eval(kids(x)[0], st, u):
+                if isinstance(pv, Ptr):
+                    s.refs['__deref__'] = pv
                 if isinstance(pv, Ptr) and pv.target is not None:
                     if pv.off is None or pv.off.const() == 0:
                         out.append((pv.target, s))
@@ -685,6 +724,7 @@ class AI(object):
                     if isinstance(pv, Ptr) and pv.target is not None and isinstance(iv, Int) and pv.off is not None:
                         off = self.add(pv.off, iv)
                         c = off.const()
+                        s2.refs['__deref__'] = Ptr(pv.null, pv.target, off)
                         out.append((pv.target + (('[%d]' % c) if c is not None else '[*]',), s2))
                     else:
                         out.append((None, s2))
@@ -829,10 +869,10 @@ class AI(object):
     def e_StringLiteral(self, e, st, u):
         v = e.get('value', '""')
         try:
-            n = len(bytes(v[1:-1], 'utf-8').decode('unicode_escape'))
+            txt = bytes(v[1:-1], 'utf-8').decode('unicode_escape')
         except Exception:
-            n = None
-        return [(Ptr('NN', ('str', id(e), n), I(0)), st)]
+            txt = None
+        return [(Ptr('NN', ('str', id(e), len(txt) if txt is not None else None, txt), I(0)), st)]
 
     def e_UnaryExprOrTypeTraitExpr(self, e, st, u):
         v = self.folder(u).fold(e)
@@ -906,7 +946,8 @@ class AI(object):
                     self.obs.uninit_read(self, e, l, vv is MAYBE_UNINIT, s)
                     vv = None
                 if vv is None or vv is TOP:
-                    vv = self.top_of(t)
+                    av = self.assume_member(e)
+                    vv = av if av is not None else self.top_of(t)
                 elif isinstance(vv, Int):
                     r = type_range(t)
                     if r:
@@ -1069,7 +1110,7 @@ class AI(object):
             return self.top_of(t)
         tg = pv.target
         if tg and tg[0] == 'str':
-            return Int(0, 255) if 'unsigned' in (t or '') else Int(-128, 127)
+            return self._str_chars(tg, pv.off, t)
         if self._record(u, (t or '').replace('const ', '').strip()) is not None:
             return StructV(tg)
         if pv.off is not None and pv.off.const() == 0:
@@ -1085,6 +1126,14 @@ class AI(object):
             if vals:
                 return Int(min(vals), max(vals))
         return self.top_of(t)
+
+    def _str_chars(self, tg, off, t):
+        txt = tg[3] if len(tg) > 3 else None
+        if txt is not None and off is not None and off.lo >= 0 and off.hi <= len(txt) and off.hi != INF:
+            vals = [(ord(txt[i]) if i < len(txt) else 0) for i in range(int(off.lo), int(off.hi) + 1)]
+            vals = [v if v < 128 else v - 256 for v in vals]
+            return Int(min(vals), max(vals))
+        return Int(0, 255) if 'unsigned' in (t or '') else Int(-128, 127)
 
     def _const_array(self, loc, u):
         if loc is None or len(loc) < 1:
@@ -1125,6 +1174,8 @@ class AI(object):
 
     def _check_access(self, e, pv, s, u, store):
         if pv.target is None or pv.off is None:
+            if store:
+                self.obs.store(self, e, pv, None, s)
             return
         ext = self._array_extent(pv.target, u)
         if ext is None:
@@ -1167,7 +1218,7 @@ class AI(object):
                 if vals:
                     return Int(min(vals), max(vals))
             if pv.target[0] == 'str':
-                return Int(-128, 127)
+                return self._str_chars(pv.target, pv.off, t)
         return self.top_of(t)
 
     def e_ConditionalOperator(self, e, st, u):
@@ -1208,10 +1259,12 @@ class AI(object):
         if op == '=':
             out = []
             for (v, s) in self.eval(b, st, u):
+                s.refs.pop('__deref__', None)
                 for (l, s2) in self.lval(a, s, u):
+                    pv = s2.refs.pop('__deref__', None)
+                    if pv is not None:
+                        self._check_access(a, pv, s2, u, store=True)
                     if l is not None:
-                        if isinstance(v, Ptr) or isinstance(v, Int) or v is TOP or isinstance(v, StructV):
-                            self._check_store_target(a, s2, u)
                         self.assign(l, v, s2, dtype(a), e, u)
                     out.append((v, s2))
             return out
@@ -1461,6 +1514,11 @@ class AI(object):
                             return self._unknown_call(e, args, st, u, c)
                         outs += r
                     return outs
+            mm = self.method_model.get(c[1])
+            if mm is not None:
+                r = mm(self, e, c, args, st, u)
+                if r is not None:
+                    return r
             m = getattr(self, 'm_' + re.sub(r'\W', '_', str(c[1])), None)
             if m is not None:
                 return m(e, c, args, st, u)
@@ -1622,6 +1680,11 @@ class AI(object):
 
     def call_function(self, fkey, args, st, u, site, this_loc=None):
         """Abstract inlining.  Returns [(value, state)] or None when not analysable."""
+        if fkey[0] in self.assume_returns:
+            cur_ = [st]
+            for a in args:
+                cur_ = [s2 for s_ in cur_ for (_, s2) in self.eval(a, s_, u)]
+            return [(self.assume_returns[fkey[0]], s_) for s_ in cur_]
         if fkey not in self.G.defs or not self.inline(fkey):
             return None
         cu, cf = self.G.defs[fkey]
@@ -1692,7 +1755,7 @@ class AI(object):
             for (v, s2) in res:
                 # restore caller's reference bindings; callee locals die here
                 s2.refs = dict(saved_refs)
-                for k_ in [k_ for k_ in s2.mem if k_[0] in ids]:
+                for k_ in [k_ for k_ in s2.mem if k_[0] in ids or (k_[0] == 'iter' and k_[1] in self._loop_ids(cf))]:
                     del s2.mem[k_]
                 if s2.rel:
                     s2.rel = {k_: v_ for k_, v_ in s2.rel.items() if k_[0][0] not in ids and k_[1][0] not in ids}
@@ -1720,6 +1783,11 @@ class AI(object):
                         ok = False
             f['_small'] = ok
         return f['_small']
+
+    def _loop_ids(self, f):
+        if '_loopids' not in f:
+            f['_loopids'] = set(id(x) for x in walk(f) if x.get('kind') in ('ForStmt', 'WhileStmt', 'DoStmt', 'CXXForRangeStmt'))
+        return f['_loopids']
 
     def _local_ids(self, f):
         if '_locals' not in f:
